@@ -99,6 +99,10 @@ def error_path_scenarios():
         scn("err-choice-outputpath", SM("A", A=dict(Ch([{"Variable": "$.x", "NumericEquals": 1, "Next": "B"}], "B"), OutputPath="$.nope"), B=P(End=True)), inputs=({"x": 1},)),
         scn("err-succeed-outputpath", SM("A", A={"Type": "Succeed", "OutputPath": "$.nope"})),
         scn("err-pass-outputpath", SM("A", A=P(OutputPath="$.nope", End=True))),
+        scn("err-par-path", SM("P", P=S.Par([SM("A", A=P(End=True))], InputPath="$.nope", End=True))),
+        scn("err-task-rsel-intrinsic", SM("A", A=T("f", ResultSelector={"a.$": "States.Nope(1)"}, End=True))),
+        scn("err-par-rsel-intrinsic", SM("P", P=S.Par([SM("A", A=P(End=True))], ResultSelector={"a.$": "States.Nope(1)"}, End=True))),
+        scn("err-map-rsel-intrinsic", SM("M", M=S.Mp(SM("A", A=P(End=True)), ResultSelector={"a.$": "States.Nope(1)"}, End=True)), inputs=([1],)),
         scn("err-task-badservice-states", SM("A", A={"Type": "Task", "Resource": "arn:aws:states:::states:bogus", "End": True})),
         scn("err-task-badservice-sdk", SM("A", A={"Type": "Task", "Resource": "arn:aws:states:::aws-sdk:bogus", "End": True})),
         scn("err-task-badservice-rpc", SM("A", A={"Type": "Task", "Resource": "arn:aws:states:::rpcmessage:bogus", "End": True})),
